@@ -37,6 +37,7 @@ type SpecEnv struct {
 	fuel    int
 	fuelSet bool
 	callSite bool // evaluating a callee's contract at a call site
+	calleeGhost map[string]Term
 }
 
 func (env *SpecEnv) clone() *SpecEnv {
@@ -799,6 +800,19 @@ func (env *SpecEnv) evalCall(n ECall) specVal {
 	case "ghost":
 		// ghost(name) : Int-sorted ghost variable of the path
 		id := n.Args[0].(EIdent).Name
+		if env.callSite {
+			// a callee's ghost variable is not the caller's (even under the same name): all the caller
+			// learns about it is what the callee's postconditions say
+			if env.calleeGhost == nil {
+				env.calleeGhost = map[string]Term{}
+			}
+			t, ok := env.calleeGhost[id]
+			if !ok {
+				t = env.e.sym.Fresh("ghost!"+id, SBool)
+				env.calleeGhost[id] = t
+			}
+			return specVal{t, boolT}
+		}
 		if t, ok := env.st.ghost["g!"+id]; ok {
 			if t.Sort == SBool {
 				return specVal{t, boolT}
